@@ -238,9 +238,9 @@ DoubleSupport::divide(
         // This is NaN...
         return getNaN();
     }
-    else if (theLHS > 0.0L && isPositiveZero(theRHS) == true)
+    else if ((theLHS > 0.0L) == isPositiveZero(theRHS))
     {
-        // This is positive infinity...
+        // This is positive infinity: the operands have the same sign...
         return getPositiveInfinity();
     }
     else
